@@ -25,8 +25,17 @@ func runC13(c *Ctx) {
 	c.rule("duration", "JSON and Cue chains substitute time.Duration by jsontypes.ParsingDuration before the tag copy; ParsingDuration.UnmarshalJSON handles string (time.ParseDuration) and json.Number (Int64) and returns an error for every other token and every parse failure", 5)
 	c.rule("specific-tag-wins", "TagCopyingMangler.Mangle changes the tag exactly when the source tag is non-empty and the destination tag is empty", 1)
 
+	c.rule("zero-only-for-unset", "(shared with C10) reflect.Zero is handed back only under a true nil-ness test: an explicitly empty list/table in a document is not reported as unset", 7)
+	c.rule("should-recurse-table", "(shared with C10) the manglers used in decoder chains recurse into nested structs unconditionally (ShouldRecurse is the constant true): a set / duration / tagged field inside a struct that is a slice element is translated like a top-level one", 4)
 	c.rule("nonnil-preserved", "containers rebuilt when reversing the Duration substitution / set-to-slice manglers are make-built: an explicitly empty list or set in a document does not come back as unset; shared with C10", 3)
 	c10NonNil(c)
+	c10ZeroOnlyUnset(c)
+	for _, im := range manglerImpls(c) {
+		switch im.name {
+		case "transform.SetSliceMangler", "transform.TagCopyingMangler", "transform.SingleTypeSubstitutionMangler", "transform.AliasMangler", "transform.AnonymousFlattenMangler", "tagformat.TagReformattingMangler":
+			c10ShouldRecurse(c, im)
+		}
+	}
 
 	w := c.W
 	type dec struct {
